@@ -35,6 +35,22 @@ theorem add_metabolites_spec (s : St) (r : Id) (ps : List (Id × Rat)) (combine 
          | none => s.st r m)
       else s.st r' m := addMets_st s r ps combine hn r' m
 
+/-- `remove_reactions([r])` (orphans kept) does what it documents and nothing else: the reaction is no longer listed, its metabolites and genes stop
+listing it, its two variables leave the solver; every other reaction, every back-reference of other reactions, metabolites, genes, bounds,
+stoichiometry, rules, gene states and the direction are untouched -/
+theorem remove_reaction_spec (y : Sys) (r : Id) :
+    let s' := (removeRxn y r).s
+    s'.hasR r = false ∧ (∀ x, x ≠ r → s'.hasR x = y.s.hasR x) ∧
+    (∀ m, s'.mr m r = false) ∧ (∀ gg, s'.gr gg r = false) ∧ s'.hasV r = false ∧ s'.hasV (y.s.rev r) = false ∧
+    (∀ m x, x ≠ r → s'.mr m x = y.s.mr m x) ∧ (∀ gg x, x ≠ r → s'.gr gg x = y.s.gr gg x) ∧
+    s'.hasM = y.s.hasM ∧ s'.hasG = y.s.hasG ∧ s'.lb = y.s.lb ∧ s'.ub = y.s.ub ∧ s'.st = y.s.st ∧ s'.rule = y.s.rule ∧ s'.gf = y.s.gf ∧
+    s'.dirMax = y.s.dirMax := removeRxn_effect y r
+
+/-- … and it keeps the cross-references and the solver consistent, and is taken back by the enclosing context (one instance of `wf_preserved` /
+C01 `sync_preserved` / C03 `op_well_recorded`, spelled out) -/
+theorem remove_reaction_step (y : Sys) (g : Good y.s) (r : Id) (hr : y.s.hasR r = true) : Step y (removeRxn y r) :=
+  removeRxn_step y g r hr
+
 
 example : WF demo := demo_good.wf
 
